@@ -3,6 +3,8 @@ from vlib import h264gen as g
 from vlib.bitgen import hx, nal_src, chunkings
 
 ID = "C05"
+# the property speaks about accepted inputs (values / invariants); which error a rejected input gets is not part of it
+ERROR_IDENTITY_IRRELEVANT = True
 RULE = ("conforming PPS built from a boundary table (ids 0..255, all 7 slice-group map types x 2..8 groups with run lengths, "
         "rectangles, change rates and explicit ids of ceil(log2) bits, ref-idx defaults, QP/QS/chroma offsets at their bounds, "
         "with and without the extension tail, 6/8/12 picture scaling lists) x contexts holding the referenced SPS (chroma "
